@@ -64,14 +64,24 @@ func nList(kids ...*Node) *Node { return &Node{Kind: "list", Kids: kids} }
 
 // observe converts a real value to a Node.  depth-limited: the values seen
 // here are finite trees built by quasiquote / macro expansion.
-func observe(v *lisp.LVal) *Node { return observeN(v, 0) }
+//
+// A value that contains itself (possible only when the interpreter is broken,
+// e.g. under a mutant) is cut by a depth and a node budget instead of being
+// followed for ever.
+func observe(v *lisp.LVal) *Node {
+	budget := 20000
+	return observeN(v, 0, &budget)
+}
 
-func observeN(v *lisp.LVal, depth int) *Node {
+func observeN(v *lisp.LVal, depth int, budget *int) *Node {
 	if v == nil {
 		return &Node{Kind: "other", Atom: "nil-pointer"}
 	}
 	if depth > 64 {
 		return &Node{Kind: "other", Atom: "too-deep"}
+	}
+	if *budget--; *budget < 0 {
+		return &Node{Kind: "other", Atom: "too-big"}
 	}
 	q := 0
 	for v.Type == lisp.LQuote {
@@ -94,7 +104,7 @@ func observeN(v *lisp.LVal, depth int) *Node {
 	case lisp.LSExpr:
 		n := &Node{Kind: "list", Q: q}
 		for _, c := range v.Cells {
-			n.Kids = append(n.Kids, observeN(c, depth+1))
+			n.Kids = append(n.Kids, observeN(c, depth+1, budget))
 		}
 		return n
 	case lisp.LFun:
